@@ -419,14 +419,18 @@ func (e *env) settle(base int, helper *atomic.Bool) {
 	e.inst.inYield.Store(true)
 	defer e.inst.inYield.Store(false)
 	for i := 0; i < 400; i++ {
+		runtime.Gosched()
 		extra := int(e.inst.inFlight.Load())
 		if helper != nil && helper.Load() {
+			// the helper may be runnable or blocked on the handler mutex: keep yielding a while
+			if i < 40 {
+				continue
+			}
 			extra++
 		}
 		if runtime.NumGoroutine()-extra <= base {
 			return
 		}
-		runtime.Gosched()
 	}
 }
 
